@@ -306,8 +306,11 @@ func c15Body(full bool) mc.Body {
 			}
 		}
 		pos := posNodes[x.Choose(len(posNodes), "position")]
-		target := x.Choose(3, "target") // 0 same parent, 1 other parent, 2 other instance
+		target := x.Choose(4, "target") // 0 same parent, 1 other parent, 2 other instance, 3 below the exported tree's own top node
 		preserve := x.Choose(2, "preserve") == 1
+		if target == 3 && preserve {
+			return mc.Outcome{Trivial: true, Obs: "a copy below itself needs new ids"}
+		}
 		return c15Run(x, sp, shape, pos, target, preserve)
 	}
 }
@@ -396,7 +399,7 @@ func c15Run(x *mc.X, sp c15Special, shape c15Shape, pos, target int, preserve bo
 			} else if content && (strings.HasPrefix(sp.name, "text=") || strings.HasPrefix(sp.name, "key=") && sp.p.Type == "kx") {
 				key = "yaml-string/" + sp.name[strings.Index(sp.name, "=")+1:]
 			}
-			return mc.Outcome{Violation: fmt.Sprintf("tree %s with %s at node n%d, import target %s, preserveIDs=%v: %s", shape.name, sp.name, pos, []string{"same parent", "other parent", "other instance"}[target], preserve, msg), Key: key}
+			return mc.Outcome{Violation: fmt.Sprintf("tree %s with %s at node n%d, import target %s, preserveIDs=%v: %s", shape.name, sp.name, pos, []string{"same parent", "other parent", "other instance", "below its own top node"}[target], preserve, msg), Key: key}
 		}
 		y, err := client.ExportNodes(a.Nc, top.id)
 		x.Step(1)
@@ -416,6 +419,9 @@ func c15Run(x *mc.X, sp c15Special, shape c15Shape, pos, target int, preserve bo
 				return mc.Outcome{Violation: "HARNESS: " + err.Error(), Key: "harness"}
 			}
 			parent = "otherparent"
+		case 3:
+			// the import parent's id occurs as a node id in the file: it must be replaced like every other id
+			parent = top.id
 		case 2:
 			b, err := sh.New(sh.Opts{})
 			if err != nil {
@@ -473,7 +479,7 @@ func checkC15(r *mc.Report, thorough bool) {
 	}
 	specials := c15Specials(thorough)
 	r.Explore(mc.Config{Name: name, SplitDepth: 2, StopAfterViolations: 60,
-		Rule: fmt.Sprintf("%d special point contents (YAML-significant / Unicode / control strings as text and as key, values incl. exponent forms and infinities, keys \"\"/\"0\"/array/map, tombstoned points, edge points (with text, zero-valued, tombstoned), node-id references to sibling / top / outside / empty) x 10 tree shapes (depth <=3, fan-out <=2, deleted child, deleted subtree, mirrored child, moved top node, moved child: oldest edge tombstoned) x every node position x import target {same parent, other parent, other instance} x preserveIDs {no, yes}; imported subtree compared with the exported one under one consistent id bijection", len(specials))},
+		Rule: fmt.Sprintf("%d special point contents (YAML-significant / Unicode / control strings as text and as key, values incl. exponent forms and infinities, keys \"\"/\"0\"/array/map, tombstoned points, edge points (with text, zero-valued, tombstoned), node-id references to sibling / top / outside / empty) x 10 tree shapes (depth <=3, fan-out <=2, deleted child, deleted subtree, mirrored child, moved top node, moved child: oldest edge tombstoned) x every node position x import target {same parent, other parent, other instance, below the exported tree's own top node} x preserveIDs {no, yes}; imported subtree compared with the exported one under one consistent id bijection", len(specials))},
 		c15Body(thorough))
 	sh.CleanupTemplate()
 	r.Assume("compared per point: type, normalised key, value bit-wise, text, tombstone (time, origin and data are not part of the statement); tombstone=0 edge points and the nodeType point are implementation noise and ignored")
